@@ -29,5 +29,5 @@ def run(ctx):
         evaluations=s.get("c04.cases", 0) + s.get("c04t.tool_runs", 0),
         floors={"c04.cases": 2000, "c04.mode.merge-function": 800, "c04.mode.no-merge-function": 200, "c04.mode.no-merge-function+dupsort": 300, "c04.failing_callback_cases": 100,
                 "family.keys.multiplicity_3plus": 5000, "family.keys.multiplicity_all_sources": 2000, "family.cases_with_user_sources": 500, "family.cases_with_empty_key": 300,
-                "family.empty_sources": 200, "family.sources.9": 50, "family.sources.12": 50, "c04.source_write_cases": 200, "c04t.tool_runs": 40, "c04.merge_callbacks": 10000},
+                "family.empty_sources": 200, "family.sources.9": 50, "family.sources.12": 50, "c04.source_write_cases": 200, "c04t.tool_runs": 35, "c04.merge_callbacks": 10000},
         extra={"merge_callbacks": s.get("c04.merge_callbacks", 0), "merges_needed_sum_multiplicity_minus_1": s.get("c04.merges_needed", 0)})
